@@ -1330,12 +1330,26 @@ class ListBox(Widget, WidgetContainerMixin):
 
         return key
 
+    def _end_position(self, reverse: bool):
+        """First (or with *reverse* last) position of the body; positions() is an optional walker method."""
+        if positions_fn := getattr(self._body, "positions", None):
+            return next(iter(positions_fn(reverse=True) if reverse else positions_fn()))
+
+        # minimal list walker: walk from the focus to the end of the list
+        step = self._body.get_next if reverse else self._body.get_prev
+        _widget, pos = self._body.get_focus()
+        while True:
+            widget, next_pos = step(pos)
+            if widget is None:
+                return pos
+            pos = next_pos
+
     def _keypress_max_left(self, size: tuple[int, int]) -> None:
-        self.focus_position = next(iter(self.body.positions()))
+        self.focus_position = self._end_position(reverse=False)
         self.set_focus_valign(VAlign.TOP)
 
     def _keypress_max_right(self, size: tuple[int, int]) -> None:
-        self.focus_position = next(iter(self.body.positions(reverse=True)))
+        self.focus_position = self._end_position(reverse=True)
         self.set_focus_valign(VAlign.BOTTOM)
 
     def _keypress_up(self, size: tuple[int, int]) -> bool | None:
